@@ -1711,6 +1711,153 @@ def fn_compose_history(items):
         n += circ.compose_history(pk, 'C17/py', N, letters, pk.inputs(N), vio)
     return {'n': n, 'nt': n, 'viol': viol}
 
+def fn_gate_sources(items):
+    """item = [pkg, N, gi]: clifford_rotation_gate(P) for a kept Pauli object P (built directly and taken from a list by
+    indexing); afterwards P / the list is changed in place (masked rotate_by, masked transform_by, array write) and the
+    gate - alone, inside a circuit, and as a copy taken afterwards - must still act as the rotation by the ORIGINAL
+    generator (reference: the exactly signed rule)."""
+    from .c02 import ref_rotate, group_arrays
+    n = nt = 0
+    viol = []
+    for pkg, N, gi in items:
+        py = pkg == 'py'
+        if py:
+            ci, P, PL, CM = lib.pci, lib.P, lib.PL, lib.CM
+            arr = lambda L: (np.asarray(L.gs).astype(np.int64), np.asarray(L.ps).astype(np.int64) % 4)
+            mkmask = lambda mb: mb.copy()
+        else:
+            m = lib.torch_mods()
+            ci, P, PL, CM = m['tci'], lib.tP, lib.tPL, lib.tCM
+            arr = lambda L: (lib.t2n(L.gs), lib.t2n(L.ps) % 4)
+            mkmask = lambda mb: m['torch'].tensor(mb.copy())
+        G = ref.all_g(N)
+        g = G[gi]
+        if not g.any():
+            continue
+        Gs, Ps = group_arrays(N)
+        t1, s1 = dom.valid_maps(1)[11]
+        for p in (0, 2):
+            eg, ep, a = ref_rotate(g, p, Gs, Ps)
+            for source in ('Pauli', 'list-element'):
+                for enm in ('rotate_by-mask', 'transform_by-mask', 'array-write'):
+                    if N == 1 and enm != 'array-write':
+                        continue
+                    try:
+                        if source == 'Pauli':
+                            src = P(g, p)
+                            holder = src
+                        else:
+                            holder = PL(np.array([G[1], g, G[-1]]), np.array([1, p, 3]))
+                            src = holder[1]
+                        gate = ci.clifford_rotation_gate(src)
+                        circ = ci.CliffordCircuit(N) if py else ci.CliffordCircuit()
+                        circ.take(gate)
+                        mb = np.zeros(N, dtype=bool)
+                        mb[N - 1] = True
+                        for tgt in ((src, holder) if holder is not src else (src,)):
+                            if enm == 'rotate_by-mask':
+                                for hg in ([1, 0], [0, 1], [1, 1]):
+                                    tgt.rotate_by(P(hg, 0), mask=mkmask(mb))
+                            elif enm == 'transform_by-mask':
+                                tgt.transform_by(CM(t1, s1), mask=mkmask(mb))
+                            else:
+                                ga = tgt.g if hasattr(tgt, 'g') else tgt.gs
+                                if py:
+                                    ga[...] = 1 - ga
+                                else:
+                                    ga.copy_(1 - ga)
+                        objs = [('gate', gate), ('circuit', circ), ('gate.copy', gate.copy())]
+                        res = []
+                        for onm, o in objs:
+                            lst = PL(Gs, Ps)
+                            o.forward(lst)
+                            res.append((onm, arr(lst)))
+                    except Exception as e:
+                        continue
+                    n += len(res)
+                    nt += len(res)
+                    for onm, (og, op) in res:
+                        if (og != eg).any() or (op != ep % 4).any():
+                            viol.append(V('C17/%s/gate-source/%s/%s' % (pkg, source, enm), [pkg, N, gi],
+                                          '%s N=%d: clifford_rotation_gate(%s) built from a %s; after %s on that source the %s no longer acts as the rotation by the original generator' % (
+                                              pkg, N, ref.g_to_str(g, p), source, enm, onm)))
+                            break
+    return {'n': n, 'nt': nt, 'viol': viol}
+
+
+def fn_inferred_size(items):
+    """item = [k]: torchclifford circuits whose qubit number is inferred from their gates: N is read, the circuit is
+    extended to a new highest qubit (take / compose), and N, compile(), copy().N and the action must follow the
+    circuit as it is now."""
+    from .c02 import ref_rotate, group_arrays
+    m = lib.torch_mods()
+    tci = m['tci']
+    n = nt = 0
+    viol = []
+    for (k,) in items:
+        gens = [((0, 1), 'XZ', 0), ((0,), 'Y', 2), ((1,), 'X', 0), ((2,), 'Z', 2), ((1, 2), 'YX', 0), ((0, 2), 'ZZ', 2)]
+        first, second = gens[k % len(gens)], gens[(k // len(gens)) % len(gens)]
+        for mk in ('CliffordCircuit()', 'identity_circuit()'):
+            for query in ('N', 'compile', 'none'):
+                for ext in ('take', 'compose'):
+                    try:
+                        c = tci.CliffordCircuit() if mk.startswith('Clifford') else tci.identity_circuit()
+                        g1 = tci.CliffordGate(*first[0])
+                        g1.set_generator(lib.tP(ref.str_to_g(first[1]), first[2]))
+                        c.take(g1)
+                        if query == 'N':
+                            c.N
+                        elif query == 'compile':
+                            c.compile()
+                        g2 = tci.CliffordGate(*second[0])
+                        g2.set_generator(lib.tP(ref.str_to_g(second[1]), second[2]))
+                        if ext == 'take':
+                            c.take(g2)
+                        else:
+                            c2 = tci.CliffordCircuit()
+                            c2.take(g2)
+                            c.compose(c2)
+                        need = max(max(first[0]), max(second[0])) + 1
+                        got_n = int(c.N)
+                        cp_n = int(c.copy().N)
+                    except Exception as e:
+                        viol.append(V('C17/torch/inferred-size/raises-%s' % type(e).__name__, [k], '%s with %s, query %s, %s: %s' % (mk, first, query, ext, e)))
+                        continue
+                    n += 1
+                    nt += 1
+                    if got_n != need or cp_n != need:
+                        viol.append(V('C17/torch/inferred-size/stale-N/%s' % query, [k], 'torch %s: gate on %s, then %s, then %s of a gate on %s: N = %d, copy().N = %d, the gates need %d qubits' % (
+                            mk, list(first[0]), 'reading N' if query == 'N' else query, ext, list(second[0]), got_n, cp_n, need)))
+                        continue
+                    # action (uncompiled and compiled) = the two rotations in order
+                    Gs, Ps = group_arrays(need)
+                    e1 = np.zeros(2 * need, dtype=np.int64)
+                    e2 = np.zeros(2 * need, dtype=np.int64)
+                    for (qs, st_, p_), e_ in ((first, e1), (second, e2)):
+                        gg = ref.str_to_g(st_)
+                        for j, q in enumerate(qs):
+                            e_[2 * q:2 * q + 2] = gg[2 * j:2 * j + 2]
+                    x1, y1, _ = ref_rotate(e1, first[2], Gs, Ps)
+                    x2, y2, _ = ref_rotate(e2, second[2], x1, y1)
+                    # a circuit that was compiled and then extended has to be compiled again before use (documented), so no plain run in that case
+                    for comp in ((True,) if query == 'compile' else (False, True)):
+                        try:
+                            if comp:
+                                c.compile()
+                            lst = lib.tPL(Gs, Ps)
+                            c.forward(lst)
+                            og, op = lib.t2n(lst.gs), lib.t2n(lst.ps) % 4
+                        except Exception as e:
+                            viol.append(V('C17/torch/inferred-size/raises-%s' % type(e).__name__, [k], 'torch %s grown from %s to %s after %s: %s raised %s' % (
+                                mk, list(first[0]), list(second[0]), query, 'compile+forward' if comp else 'forward', e)))
+                            break
+                        n += 1
+                        if (og != x2).any() or (op != y2 % 4).any():
+                            viol.append(V('C17/torch/inferred-size/action/%s' % query, [k], 'torch %s grown after %s: %s forward is not the ordered product of its two gates' % (mk, query, 'compiled' if comp else 'plain')))
+                            break
+    return {'n': n, 'nt': nt, 'viol': viol}
+
+
 def legs(tier, for_replay=False):
     t = 0 if tier == 'quick' else 1
     seed = 0
@@ -1808,4 +1955,8 @@ def legs(tier, for_replay=False):
     out.append(Leg('result_independence', fn_special, [[pkg, N, kind] for pkg in ('py', 'torch') for kind in ('pauli', 'kept') for N in (1, 2, 3)], chunk=1,
                    bound='both packages, N<=3: compose with sign-only / identity operands, then the RESULT overwritten in place (embed, array write): operands unchanged; inverses and '
                          'compositions kept and re-read after later calls (leg shared with C04)'))
+    out.append(Leg('gate_sources', fn_gate_sources, [[pkg, N, gi] for pkg in ('py', 'torch') for N in (1, 2) for gi in range(1, 4 ** N)] + [[pkg, 3, gi] for pkg in ('py', 'torch') for gi in (21, 42, 63, 7, 36, 57)], chunk=2,
+                   bound='both packages: clifford_rotation_gate from a kept Pauli / a list element (all strings N<=2 x both signs, six N=3 strings incl. full support), source changed in place afterwards (masked rotate_by / transform_by, array write): gate, circuit and later copy unchanged'))
+    out.append(Leg('inferred_size_torch', fn_inferred_size, [[k] for k in range(36)], chunk=2,
+                   bound='torchclifford circuits with inferred qubit number: 36 ordered pairs of rotation gates on qubit sets of {0,1,2} x (read N / compile / nothing) x (take / compose): N, copy().N, plain and compiled action'))
     return out
